@@ -808,7 +808,7 @@ def _probes(ctx: Ctx) -> None:
 
 
 # ---------------------------------------------------------------------------------------------
-def _exhaustive_ints(ctx: Ctx, rows_by_id: dict) -> tuple[dict, int, str]:
+def _exhaustive_ints(ctx: Ctx, rows_by_id: dict, pool: t.Any) -> tuple[dict, int, str]:
     """All integers of <= 2 (quick) / <= 3 (thorough) content octets, batched."""
     bad: dict = {}
     if not ctx.thorough:
@@ -821,8 +821,9 @@ def _exhaustive_ints(ctx: Ctx, rows_by_id: dict) -> tuple[dict, int, str]:
         lo0, hi0 = -(2**23), 2**23
         slab = 2**18
         jobs = [(lo, lo + slab, str(ctx.rundir / f"TraceDer-ints3-{i:03d}.ndjson")) for i, lo in enumerate(range(lo0, hi0, slab))]
-        with mp.get_context("fork").Pool(16) as pool:
-            files = pool.map(_slab_to_file, jobs)
+        files = pool.map(_slab_to_file, jobs)
+        pool.close()
+        pool.join()
         b = _validate_files(ctx, files, "ints3")
         for f in files:
             pathlib.Path(f).unlink(missing_ok=True)
@@ -850,10 +851,13 @@ def _exhaustive_ints(ctx: Ctx, rows_by_id: dict) -> tuple[dict, int, str]:
 
 
 def run(ctx: Ctx) -> int:
+    _api()
+    # worker processes for the 16.7M-integer sweep are forked before any thread exists
+    pool = mp.get_context("fork").Pool(14) if ctx.thorough else None
     ex, futs = _start_spec_checks(ctx)
     rows_by_id: dict = {}
     if True:
-        bad_i, n_int, int_note = _exhaustive_ints(ctx, rows_by_id)
+        bad_i, n_int, int_note = _exhaustive_ints(ctx, rows_by_id, pool)
         cases = gen_cases(ctx)
         rows = []
         for i, (focus, vals, skip) in enumerate(cases):
